@@ -267,7 +267,7 @@ def run_ppci(case):
 
 def _driver(cases):
     """-> (source text, {line number: item index})"""
-    lines = ["#include <stdio.h>", "static void dump(const void *p, unsigned n) { const unsigned char *c = p; while (n--) printf(\"%02x\", *c++); }"]
+    lines = ["int printf(const char *, ...);", "static void dump(const void *p, unsigned n) { const unsigned char *c = p; while (n--) printf(\"%02x\", *c++); }"]
     linemap = {}
     body = []
     for i, case in enumerate(cases):
@@ -746,7 +746,7 @@ def _worker(arg):
         # gcc is the oracle: confirm every judged item
         items = list(pool.values())
         out = []
-        CH = 40
+        CH = 64
         for c0 in range(0, len(items), CH):
             chunk = items[c0 : c0 + CH]
             gres = _gcc_batch([c for c, _, _ in chunk], tmp)
@@ -779,5 +779,8 @@ def _worker(arg):
 def run(ctx):
     if not GCC:
         raise HarnessError("gcc not found")
-    n = ctx.scale(6400, 400000)
+    import ppci.api  # noqa: F401  (imported before the fork: the workers share it)
+
+    ppci.api.get_arch("x86_64")
+    n = ctx.scale(3200, 400000)
     ctx.pmap(_worker, [(subseed(ctx.seed, PID, w), n // 16, ctx.scale(4, 5)) for w in range(16)])
